@@ -2658,6 +2658,8 @@ static const Token *singleAssignInScope(const Token *start, nonneg int varid, bo
     if (!Token::Match(start->next(), "%var% %assign%"))
         return nullptr;
     const Token *assignTok = start->tokAt(2);
+    if (!assignTok->astOperand1())
+        return nullptr;
     if (isVariableChanged(assignTok->next(), endStatement, assignTok->astOperand1()->varId(), /*globalvar*/ false, settings))
         return nullptr;
     if (isVariableChanged(assignTok->next(), endStatement, varid, /*globalvar*/ false, settings))
